@@ -24,6 +24,8 @@
      23 expected TlsaSelector  24 expected TlsaMatchingType
      25 trailing Base 64 data  26 illegal Base 64 data  27 incomplete Base 64 data
      28 generic data has incorrect length
+     29 illegal NSEC3 salt  30 NSEC3 salt too long  31 illegal Base 32 data
+     32 short Base 32 input  33 NSEC3 owner hash too long  34 expected Nsec3HashAlgorithm
      99 record type / syntax outside the model *)
 From Coq Require Import NArith List Bool Arith.
 From DV Require Import Base.Outcome Base.Bytes C07.Gen.
@@ -718,6 +720,72 @@ Definition convert_entry (init : St) (s : sbuf) : outcome (list N * sbuf) :=
   end.
 End Convert.
 
+(* convert_token: a single token through a converter whose process_tail may
+   hand back data (appended after convert_one_token has called next_item) *)
+Section ConvertToken.
+Variable St : Type.
+Variable process : St -> symbol -> outcome (St * list N).
+Variable tail_data : St -> outcome (list N).
+
+Definition convert_token (init : St) (s : sbuf) : outcome (list N * sbuf) :=
+  do _ <- require_token s;
+  do r <- convert_token_loop St process (fuel_of s) init s 0 None;
+  let '(h, s1, w, b) := r in
+  do s2 <- next_item s1;
+  do data <- tail_data h;
+  do a <- (match data with [] => Ok (s2, w, b) | _ => append_data s2 data w b end);
+  let '(s3, w3, b3) := a in
+  match b3 with Some bl => Ok (bl, s3) | None => split_to s3 w3 end.
+End ConvertToken.
+
+(* Nsec3Salt::scan: `-` for the empty salt, else Base 16 with at most 255 octets *)
+Inductive saltst := SaltNew | SaltEmpty | SaltHex (h : hexst) (len : nat).
+
+Definition salt_hex (h : hexst) (len : nat) (sym : symbol) : outcome (saltst * list N) :=
+  do r <- hex_process h sym;
+  let len' := (len + length (snd r))%nat in
+  if Nat.ltb 255 len' then Err 30 else Ok (SaltHex (fst r) len', snd r).
+
+Definition salt_process (st : saltst) (sym : symbol) : outcome (saltst * list N) :=
+  match st with
+  | SaltNew => match into_char sym with
+               | Some 45 => Ok (SaltEmpty, [])
+               | _ => salt_hex (mkH false 0) 0 sym
+               end
+  | SaltEmpty => Err 29
+  | SaltHex h len => salt_hex h len sym
+  end.
+
+Definition salt_tail (st : saltst) : outcome (list N) :=
+  match st with SaltHex h _ => do _ <- hex_tail h; Ok [] | _ => Ok [] end.
+
+(* OwnerHash::scan: the Base 32 converter (C18 model) with a 255 octet limit *)
+Definition b32_err {A} (o : outcome A) : outcome A :=
+  match o with
+  | Err e => if e =? C18.Model.E_SHORT then Err 32 else Err 31
+  | x => x
+  end.
+
+Definition hash_check {A} (len : nat) (data : list N) (k : nat -> outcome A) : outcome A :=
+  let len' := (len + length data)%nat in if Nat.ltb 255 len' then Err 33 else k len'.
+
+Definition hash_process (st : C18.Model.conv32 * nat) (sym : symbol)
+  : outcome (C18.Model.conv32 * nat * list N) :=
+  match into_char sym with
+  | None => Err 31
+  | Some ch =>
+    do r <- b32_err (C18.Model.c32_process_char (fst st) ch);
+    hash_check (snd st) (snd r) (fun len' => Ok (fst r, len', snd r))
+  end.
+
+Definition hash_tail (st : C18.Model.conv32 * nat) : outcome (list N) :=
+  do data <- b32_err (C18.Model.c32_process_tail (fst st));
+  hash_check (snd st) data (fun _ => Ok data).
+
+Definition convert_token_salt := convert_token saltst salt_process salt_tail SaltNew.
+Definition convert_token_hash :=
+  convert_token (C18.Model.conv32 * nat) hash_process hash_tail (C18.Model.c32_new, 0%nat).
+
 Definition convert_entry_hex := convert_entry hexst hex_process hex_tail (mkH false 0).
 Definition convert_entry_b64 := convert_entry C18.Model.conv64 b64_process b64_tail C18.Model.c64_new.
 
@@ -865,7 +933,7 @@ Definition scan_ctr (s : sbuf) : outcome (option N * option N * N * sbuf) :=
 (* record data: the presentation schema of the modelled types as a sequence of
    Scanner calls, result = wire format of the record data *)
 Inductive field := FName | FU16 | FU32 | FTtl | FCharstr | FCharstrEntry | FIpv4
-  | FU8Str (err : N) | FHexEntry | FB64Entry.
+  | FU8Str (err : N) | FHexEntry | FB64Entry | FU8 | FSalt.
 
 Definition schema (rtype : N) : option (list field) :=
   if rtype =? 1 then Some [FIpv4]
@@ -873,6 +941,7 @@ Definition schema (rtype : N) : option (list field) :=
           || (rtype =? 8) || (rtype =? 9) || (rtype =? 39) then Some [FName]
   else if (rtype =? 14) || (rtype =? 17) then Some [FName; FName]
   else if rtype =? 61 then Some [FB64Entry]
+  else if rtype =? 51 then Some [FU8Str 34; FU8; FU16; FSalt]
   else if rtype =? 44 then Some [FU8Str 20; FU8Str 21; FHexEntry]
   else if rtype =? 52 then Some [FU8Str 22; FU8Str 23; FU8Str 24; FHexEntry]
   else if rtype =? 6 then Some [FName; FName; FU32; FTtl; FTtl; FTtl; FTtl]
@@ -902,6 +971,8 @@ Definition scan_field (origin : option (list N)) (f : field) (s : sbuf) : outcom
     Ok ([fst r], snd r)
   | FHexEntry => convert_entry_hex s
   | FB64Entry => convert_entry_b64 s
+  | FU8 => do r <- scan_uint 255 int_add_checked s; Ok ([fst r], snd r)
+  | FSalt => do r <- convert_token_salt s; Ok (N.of_nat (length (fst r)) :: fst r, snd r)
   end.
 
 Fixpoint scan_fields (origin : option (list N)) (fs : list field) (s : sbuf) (acc : list N)
@@ -928,7 +999,16 @@ Definition scan_rdata (origin : option (list N)) (rtype : N) (s : sbuf) : outcom
    scan_ascii_str with a closure that accepts everything (a closure that
    rejects only ends the scan earlier). *)
 Inductive meth := MName | MOctets | MCharstr | MAscii | MUint (maxv : N) (checked : bool)
-  | MCharstrEntry | MHexEntry | MB64Entry.
+  | MCharstrEntry | MHexEntry | MB64Entry | MWhileAscii | MSaltToken | MHashToken.
+
+(* RtypeBitmap::scan: `while scanner.continues() { Rtype::scan(scanner)? }` *)
+Fixpoint while_ascii (fuel : nat) (s : sbuf) : outcome sbuf :=
+  match fuel with
+  | O => OutOfFuel
+  | S f => if is_token (scat s)
+           then do r <- scan_ascii_str (fun _ => Ok tt) s; while_ascii f (snd r)
+           else Ok s
+  end.
 
 Definition run_meth (origin : option (list N)) (m : meth) (s : sbuf) : outcome sbuf :=
   match m with
@@ -940,6 +1020,9 @@ Definition run_meth (origin : option (list N)) (m : meth) (s : sbuf) : outcome s
   | MCharstrEntry => do r <- scan_charstr_entry s; Ok (snd r)
   | MHexEntry => do r <- convert_entry_hex s; Ok (snd r)
   | MB64Entry => do r <- convert_entry_b64 s; Ok (snd r)
+  | MWhileAscii => while_ascii (S (length (buf s))) s
+  | MSaltToken => do r <- convert_token_salt s; Ok (snd r)
+  | MHashToken => do r <- convert_token_hash s; Ok (snd r)
   end.
 
 (* the method codes of Gen.type_scans (written by T1 from each type's scan) *)
@@ -951,7 +1034,8 @@ Definition decode_meth (c : N) : option meth :=
   else if c =? 7 then Some (MUint 4294967295 int_add_checked)
   else if c =? 8 then Some (MUint 4294967295 ttl_add_checked)
   else if c =? 9 then Some MCharstrEntry else if c =? 10 then Some MHexEntry
-  else if c =? 11 then Some MB64Entry else None.
+  else if c =? 11 then Some MB64Entry else if c =? 12 then Some MWhileAscii
+  else if c =? 13 then Some MSaltToken else if c =? 14 then Some MHashToken else None.
 
 Fixpoint decode_meths (l : list N) : option (list meth) :=
   match l with
@@ -965,7 +1049,7 @@ Fixpoint decode_meths (l : list N) : option (list meth) :=
 Definition field_code (f : field) : N :=
   match f with
   | FName => 1 | FIpv4 => 2 | FCharstr => 3 | FU8Str _ => 4 | FU16 => 6 | FU32 => 7 | FTtl => 8
-  | FCharstrEntry => 9 | FHexEntry => 10 | FB64Entry => 11
+  | FCharstrEntry => 9 | FHexEntry => 10 | FB64Entry => 11 | FU8 => 5 | FSalt => 13
   end.
 
 Fixpoint run_meths (origin : option (list N)) (ms : list meth) (s : sbuf) : outcome sbuf :=
@@ -1063,6 +1147,35 @@ Fixpoint read_loop (fuel : nat) (zs : zstate) (s : sbuf) (acc : list entry) : li
 Definition read_file (file : list N) : list entry * ending :=
   read_loop (S (S (length file))) init_zstate (init_sbuf file) [].
 
+(* zonetree::parsed::Zonefile::try_from(inplace::Zonefile): `for res in source`
+   (Iterator::next = next_entry().transpose()), entries collected, and in the
+   Err arm `return Err(errors)`.  If that return were missing the loop would
+   call next_entry again; the branch below reads on from the state the failed
+   call started in, which is what happens for an error raised by next_item
+   itself (a stray closing parenthesis: nothing is consumed, the call fails the
+   same way for ever).  Errors in the middle of a token would trip the
+   assertion of next_item instead; the model does not keep that state. *)
+Fixpoint parsed_loop (fuel : nat) (zs : zstate) (s : sbuf) (acc : list entry) : list entry * ending :=
+  match fuel with
+  | O => (rev acc, EFuel)
+  | S f =>
+    match scan_entry zs s with
+    | Ok (SEntry e, zs, s) => parsed_loop f zs s (e :: acc)
+    | Ok (SOrigin o, zs, s) =>
+      parsed_loop f (mkZ (Some o) (last_owner zs) (last_ttl zs) (dollar_ttl zs) (last_class zs)) s acc
+    | Ok (STtl t, zs, s) =>
+      parsed_loop f (mkZ (origin zs) (last_owner zs) (last_ttl zs) (Some t) (last_class zs)) s acc
+    | Ok (SEmpty, zs, s) => parsed_loop f zs s acc
+    | Ok (SEof, _, _) => (rev acc, EEof)
+    | Err e => if parsed_stops_at_error then (rev acc, EErr e) else parsed_loop f zs s acc
+    | Panic p => (rev acc, EPanic p)
+    | OutOfFuel => (rev acc, EFuel)
+    end
+  end.
+
+Definition parsed_file (file : list N) : list entry * ending :=
+  parsed_loop (S (S (length file))) init_zstate (init_sbuf file) [].
+
 (* ------------------------------------------------- abstract token stream *)
 
 (* What a consumer that reads every token symbol by symbol sees (the loop of
@@ -1110,3 +1223,4 @@ Definition items_of (file : list N) : list item * ending :=
 (* executable entry points for the correspondence driver *)
 Definition c07_read (file : list N) : list entry * ending := read_file file.
 Definition c07_items (file : list N) : list item * ending := items_of file.
+Definition c07_sym (l : list N) : symres := sym_at l.
